@@ -55,6 +55,7 @@ def main():
     head = subprocess.run(["git", "-C", "/repo", "rev-parse", "--short", "HEAD"], capture_output=True, text=True).stdout.strip()
     sh("git checkout -q -- . && git clean -qfd -e target && git checkout -q --detach " + head)
     meta = {"id": key, "property": pid, "repo_head": head, "demo_path": demo_rel, "demo_cmd": demo_cmd, "steps": {}}
+    os.makedirs(os.path.dirname(os.path.join(WT, demo_rel)), exist_ok=True)
     shutil.copy(os.path.join(src, "demo.rs"), os.path.join(WT, demo_rel))
     rc, out, dt = sh(demo_cmd)
     meta["steps"]["demo_without_patch"] = {"exit": rc, "secs": round(dt), "tail": out[-600:]}
